@@ -12,6 +12,7 @@ hex strings; files are `<pathhex>=<contenthex>` and are printed sorted.
   PJ a b | PR base targ | PM root f   Join / Rel / generated-file path of a Thrift file
   VA root f…  | CA f…                 verifyAncestry / findCommonAncestor
   G  root out nm {path content|!}* np {!|nf {path content}*}* ord      generate plan
+  GC cwd root|! out nm {…}* np {…}* ord                                  the same from the CLI's arguments
   W  nf {fullpath content}*           the write loop (in this order) on an empty file system
   H  coreOk nc {path content}* ord np {name exitAtStart exitCode hsOut hsExit genOut genExit byeOut byeExit}*
   S  name hasSG libver ng {E|N|nf {path content}*}* chunks             plugin.Main
@@ -118,15 +119,19 @@ def hevText : HEvent → String
 def verdictText : Verdict → String
   | .ok => "ok" | .fail => "fail" | .hang => "hang"
 
-def showRec (r : Rec) : String :=
+def showRec (trace : Bool) (r : Rec) : String :=
   let n := if namedIn r then "1" else "0"
-  s!"; {n} {".".intercalate (r.st.view.map pevText)} {".".intercalate (r.h.map hevText)}"
+  let t := if trace then " " ++ ".".intercalate (r.h.map hevText) else ""
+  s!"; {n} {".".intercalate (r.st.view.map pevText)}{t}"
 
-def showResult (r : Result) : String :=
+/-- `H`: what can be observed from outside (verdict, files handed to the write loop, and per
+plugin whether the error output names it and what the plugin saw); `HT` adds the host's
+own actions per plugin. -/
+def showResult (trace : Bool) (r : Result) : String :=
   let w := match r.wrote with
     | some fs => showFiles fs
     | none => "-"
-  s!"ok {verdictText r.exit} {w} " ++ " ".intercalate (r.recs.map showRec)
+  s!"ok {verdictText r.exit} {w} " ++ " ".intercalate (r.recs.map (showRec trace))
 
 def pStep (ts : Toks) : Option (PStep × Toks) :=
   match pChunks ts with
@@ -153,9 +158,9 @@ def pPlugin (ts : Toks) : Option (Plugin × Toks) :=
   | none => none
   | some (bye, r5) => some (⟨name, eas, hs, gen, bye, code⟩, r5)
 
+/-- only what a process can show: stopped by goodbye (exit 0) or failed (`log.Fatalf`). -/
 def stopText : Stop → String
-  | .goodbye => "goodbye" | .eof => "eof" | .readErr => "read-err" | .badRequest => "bad-request"
-  | .fuel => "fuel"
+  | .goodbye => "goodbye" | .fuel => "fuel" | _ => "failed"
 
 def showAnswer (a : Answer) : String :=
   let k := match a.r with
@@ -261,25 +266,25 @@ def step (line : String) : String :=
         | none => "bad-op"
       | _ => "bad-op"
     | _, _, _ => "bad-op"
+  | "GC" :: cwd :: root :: out :: rest =>
+    match pStr [cwd], pStr [out], pCounted pMod rest with
+    | some (cwd, _), some (out, _), some (mods, r1) =>
+      match pCounted pOptFiles r1 with
+      | some (plugs, [ord]) =>
+        match natsOf ord, (if root = "!" then some none else (pStr [root]).map fun x => some x.1) with
+        | some ord, some root =>
+          match cliPlan cwd root out mods plugs ord with
+          | .ok fs => "ok " ++ showFiles fs
+          | .error _ => "err"
+        | _, _ => "bad-op"
+      | _ => "bad-op"
+    | _, _, _ => "bad-op"
   | "W" :: rest =>
     match pFiles rest with
     | some (fs, []) =>
       match writeLoop ⟨[], []⟩ fs with
       | (st, ok) => (if ok then "ok " else "err ") ++ showFiles st.files
     | _ => "bad-op"
-  | "H" :: rest =>
-    match pBool rest with
-    | none => "bad-op"
-    | some (coreOk, r0) =>
-    match pFiles r0 with
-    | none => "bad-op"
-    | some (core, r1) =>
-    match r1 with
-    | ord :: r2 =>
-      match natsOf ord, pCounted pPlugin r2 with
-      | some ord, some (ps, []) => showResult (run ⟨ps, coreOk, core, ord⟩)
-      | _, _ => "bad-op"
-    | [] => "bad-op"
   | "S" :: name :: sg :: ver :: rest =>
     match bytesOfHex name, sg.toNat?, bytesOfHex ver, pCounted pGenAnswer rest with
     | some name, some sg, some ver, some (gens, [chunks]) =>
@@ -314,7 +319,21 @@ def step (line : String) : String :=
         | some x => toString x
         | none => "none")
     | _, _, _, _ => "bad-op"
-  | _ => "bad-op"
+  | h :: rest =>
+    if h ≠ "H" ∧ h ≠ "HT" then "bad-op" else
+    match pBool rest with
+    | none => "bad-op"
+    | some (coreOk, r0) =>
+    match pFiles r0 with
+    | none => "bad-op"
+    | some (core, r1) =>
+    match r1 with
+    | ord :: r2 =>
+      match natsOf ord, pCounted pPlugin r2 with
+      | some ord, some (ps, []) => showResult (h = "HT") (run ⟨ps, coreOk, core, ord⟩)
+      | _, _ => "bad-op"
+    | [] => "bad-op"
+  | [] => "bad-op"
 
 partial def loop (hin hout : IO.FS.Stream) : IO Unit := do
   let line ← hin.getLine
